@@ -81,12 +81,13 @@ def _rn(n, wk):
     raise KeyError(wk)
 
 
-def _matop(A, wk, impl):
+def _matop(A, wk, impl, dom=None):
     """Operator of matrix A between rn(n)[wk] and rn(m)[wk']; impl 'odl' = odl.MatrixOperator
     (only where its transpose IS the adjoint), 'ref' = WMat."""
     A = np.asarray(A, float)
     m, n = A.shape
-    dom = _rn(n, wk)
+    if dom is None:
+        dom = _rn(n, wk)
     if wk == 'wa':
         ran = dom if m == n else (odl.rn(m, weighting=WARR[m]) if m in WARR else odl.rn(m))
     else:
@@ -179,8 +180,11 @@ def _viol(site, first):
     return [{'site': site, 'symptom': s, 'detail': d} for s, d in first.items()]
 
 
-def _rhs_list(m, tier):
-    return [np.array(t) for t in itertools.product(RV, repeat=m)]
+RV3 = [-1.0, 0.0, 2.0]
+
+
+def _rhs_list(m, full=False):
+    return [np.array(t) for t in itertools.product(RV if (m <= 2 or full) else RV3, repeat=m)]
 
 
 # ----------------------------------------------------------------------------------------------
@@ -198,7 +202,7 @@ def run_cg(cfg):
                                            'wa': 'array-weighted'}[wk])
     first, evals, sigs = {}, 0, set()
     niter = n + 2
-    for b in _rhs_list(n, None):
+    for b in _rhs_list(n, True):
         xs = np.linalg.solve(A, b)
         for x0 in (np.zeros(n), np.array(X0PAT[:n])):
             x = sp.element(x0.copy())
@@ -255,7 +259,7 @@ def run_cgn(cfg):
     first, evals, sigs = {}, 0, set()
     niter = n + 2
     Aadj = R.adjoint_matrix(A, wx, wy)
-    for b in _rhs_list(m, None):
+    for b in _rhs_list(m):
         for x0 in (np.zeros(n), np.array(X0PAT[:n])):
             x = op.domain.element(x0.copy())
             rec = Rec()
@@ -301,10 +305,12 @@ def run_landweber(cfg):
         return {'evals': 0, 'skipped': 1, 'trivial': True, 'sig': 'adjoint-inexact'}
     nrm = R.opnorm(A, wx, wy)
     first, evals, sigs, skipped = {}, 0, set(), 0
-    niter = 10
-    for b in _rhs_list(m, None):
+    niter = 8
+    for b in _rhs_list(m):
         for x0 in (np.zeros(n), np.array(X0PAT[:n])):
             for om in LW_OMEGA + ['default']:
+                if x0.any() and om != 1.0:
+                    continue
                 x = op.domain.element(x0.copy())
                 rec = Rec()
                 if om == 'default':
@@ -378,13 +384,14 @@ def run_kaczmarz(cfg):
         return {'evals': 0, 'skipped': 1, 'trivial': True, 'sig': 'zero-row'}
     first, evals, sigs = {}, 0, set()
     nsweep = 3
-    for xt in itertools.product(RV, repeat=n):
-        xt = np.array(xt)
+    for xt in _rhs_list(n):
         rhs = [o.range.element(A[p, :].dot(xt)) for p, o in zip(parts, ops)]
         for x0 in (np.zeros(n), np.array(X0PAT[:n])):
             for om in KZ_OMEGA:
                 omega = [om / nr ** 2 for nr in norms]
                 for loop in ('inner', 'outer'):
+                    if (x0.any() and om != 1.5) or (loop == 'outer' and om != 1.0):
+                        continue
                     x = dom.element(x0.copy())
                     rec = Rec()
                     try:
@@ -452,7 +459,10 @@ def _objective(cfg):
         sp = _rn(n, cfg['w'])
         w = S.weights(sp)
         A = Sm / w[:, None]
-        op = odl.MatrixOperator(A, domain=sp, range=sp)
+        # (array weights: odl.MatrixOperator.adjoint is the transpose, so QuadraticForm.gradient
+        # would not be the gradient there - C05/C09 matter; the harness operator is used)
+        op = WMat(A, sp, sp, selfadj=True) if cfg['w'] == 'wa' else \
+            odl.MatrixOperator(A, domain=sp, range=sp)
         v = np.array(X0PAT[:n])
         f = odl.solvers.QuadraticForm(op, sp.element(v), 3.0)
 
@@ -502,12 +512,13 @@ def run_smooth(cfg):
     f, val, grad, sp = _objective(cfg)
     name = cfg['solver']
     horizon = cfg['horizon']
-    site = '%s[BacktrackingLineSearch,%s,%s]' % (name, cfg['obj'], horizon)
+    site = '%s[BacktrackingLineSearch]' % name
     n = sp.size
     first, evals, sigs, skipped = {}, 0, set(), 0
-    maxiter = 25 if horizon == 'short' else 3000
-    for lo in LS_OPTS:
-        for x0 in _starts(n):
+    maxiter = 25 if horizon == 'short' else 1500
+    judged_exc = name == 'steepest_descent'       # the solver the property names
+    for lo in (LS_OPTS if horizon == 'short' else LS_OPTS[:2]):
+        for x0 in (_starts(n) if horizon == 'short' else _starts(n)[:3]):
             if np.linalg.norm(grad(x0)) == 0:
                 continue
             x = sp.element(x0.copy())
@@ -527,8 +538,11 @@ def run_smooth(cfg):
                 gn = float(np.linalg.norm(grad(S.to_flat(x))))
                 msg = '%s after %d iterations, |grad f(x)|=%.3e, f=%r: %r' % (
                     info, len(rec.it), gn, val(S.to_flat(x)), exc)
-                if isinstance(exc, ValueError) and 'exceeded maximum' in str(exc):
-                    # documented failure mode of the line search (max_num_iter)
+                if not judged_exc or (isinstance(exc, ValueError) and
+                                      'exceeded maximum' in str(exc)):
+                    # 'exceeded maximum' is the documented failure mode of the line search
+                    # (max_num_iter); break-downs of the quasi-Newton updates are not this
+                    # property's business - the objective along the iterates still is
                     skipped += 1
                 else:
                     _first(first, 'raises:' + type(exc).__name__, msg)
@@ -552,7 +566,7 @@ def run_linesearch(cfg):
     f, val, grad, sp = _objective(cfg)
     n = sp.size
     w = S.weights(sp)
-    site = 'BacktrackingLineSearch[%s]' % cfg['obj']
+    site = 'BacktrackingLineSearch.__call__'
     first, evals, sigs, skipped = {}, 0, set(), 0
     dirs = [np.array(t) for t in itertools.product([-1.0, 0.0, 0.5], repeat=n) if any(t)]
     for lo in LS_OPTS:
@@ -706,7 +720,7 @@ def _mk_L(kind, X, xname):
     if kind in MATS:
         _, n, wk = XSPACES[xname]
         A = np.array(MATS[kind][n])
-        return _matop(A, wk, 'ref' if wk == 'wa' else 'odl')
+        return _matop(A, wk, 'ref' if wk == 'wa' else 'odl', dom=X)
     raise KeyError(kind)
 
 
@@ -1011,7 +1025,6 @@ class Watch(object):
         self.scale = 1.0 + self.nx + R.wnorm(P.ys, P.ref.wy)
         self.dist = INF
         self.res = INF
-        self.hit = None          # first iteration at which the judged tolerances hold
         self.yobj = yobj
         self.diag = diag
         self.nonmono = 0
@@ -1037,12 +1050,8 @@ class Watch(object):
         self.dist = R.wnorm(z - self.P.xs, self.P.wx)
         if self.dist <= 1e-5 * (1.0 + self.nx):
             self.res = self.P.ref.residual(z, self.P.ys)
-            if self.hit is None and self.ok():
-                self.hit = self.k
             if self.ok(1e-3):
                 raise _Stop()
-        else:
-            self.hit = None
 
 
 def _zero_h(P):
@@ -1257,10 +1266,26 @@ def run_ns(cfg):
                                 '%s: dual variable moved from y*=%s to %s' % (
                                     info, P.ys.tolist(), S.to_flat(inject[0]).tolist())))
                 sigs.add('%s:fp' % solver)
-            if not live:
+            # ---- result of a short run is the last iterate handed to the callback
+            x0 = _x0(P, 'pattern', fam)
+            x = S.from_flat(P.X, x0.copy())
+            rec = Rec()
+            _seed(cfg)
+            _call_ns(solver, P, st, x, 5, rec)
+            evals += 1
+            if len(rec.it) != 5 or not np.array_equal(S.to_flat(x), rec.it[-1]):
+                _first(first, ('last', site), (
+                    'result_is_not_last_iterate',
+                    '%s x0=%s niter=5: %d callbacks, x after the call %s, last callback iterate '
+                    '%s' % (info, x0.tolist(), len(rec.it), S.to_flat(x).tolist(),
+                            rec.it[-1].tolist() if rec.it else None)))
+            if not live or ('live', site) in first:
                 continue
             # ---- (ii) bounded liveness (+ diagnostics), from every start
-            for which in (['zero', 'pattern'] if tier == 'thorough' else ['zero']):
+            for which in (['zero', 'pattern'] if (tier == 'thorough' and cfg['pat'] == 0)
+                          else ['zero']):
+                if ('live', site) in first:
+                    break
                 x0 = _x0(P, which, fam)
                 x = S.from_flat(P.X, x0.copy())
                 inject = None
@@ -1309,3 +1334,232 @@ def run_ns(cfg):
     return {'evals': evals, 'viol': viol, 'sig': sorted(sigs), 'skipped': skipped,
             'trivial': evals == 0,
             'diag': [diag_runs, diag_nonmono], 'iters': [max(iters)] if iters else []}
+
+
+# ----------------------------------------------------------------------------------------------
+# configuration space
+
+def _canonical(shape, t):
+    """Symmetry reduction for the rectangular pool: permuting the equations and flipping the sign
+    of an unknown map a run of cgn / landweber onto a run with permuted right-hand side / negated
+    unknown (the alphabets V^m are closed under both), so one representative per orbit (the
+    lexicographically smallest) is kept."""
+    A = np.array(t).reshape(shape)
+    best = None
+    for perm in itertools.permutations(range(shape[0])):
+        for signs in itertools.product([1, -1], repeat=shape[1]):
+            B = A[list(perm), :] * np.array(signs)[None, :]
+            key = tuple(B.ravel().tolist())
+            if best is None or key < best:
+                best = key
+    return tuple(t) == best
+
+
+_POOLS = {}
+
+
+def _pool(shape, alph):
+    key = (tuple(shape), tuple(alph))
+    if key not in _POOLS:
+        _POOLS[key] = [t for t in rect_pool(shape, alph) if _canonical(shape, t)]
+    return _POOLS[key]
+
+
+K_LIVE = 6000
+COMBOS = [(0, 'plain'), (1, 'plain'), (0, 'w2'), (0, 'wa'), (1, 'wa'), (1, 'w2')]
+
+
+def configs(tier):
+    thorough = tier == 'thorough'
+    cfgs = []
+    spd = {2: spd_pool(2), 3: spd_pool(3)}
+    # ---- (a) conjugate gradient: all SPD matrices
+    for n in (2, 3):
+        for i, t in enumerate(spd[n]):
+            for ci, (ill, wk) in enumerate(COMBOS):
+                if not thorough and ci > 0 and not (n == 2 or i % 12 == ci):
+                    continue
+                cfgs.append({'kind': 'cg', 'n': n, 'mat': t, 'ill': ill, 'w': wk})
+    # ---- (a) cgn / landweber / kaczmarz: full-rank rectangular matrices
+    small = [-1, 0, 1]
+    for shape in ([2, 2], [3, 2], [2, 3], [3, 3]):
+        full = _pool(shape, MV) if shape != [3, 3] else _pool(shape, small)
+        red = _pool(shape, small)
+        if shape == [3, 3]:
+            red = red[::8]
+            if not thorough:
+                full = red
+        for ci, (ill, wk) in enumerate(COMBOS):
+            if ci == 0:
+                pool = full if (thorough or shape == [2, 2]) else red
+            else:
+                pool = red if thorough else red[ci::5]
+            for t in pool:
+                base = {'shape': shape, 'mat': t, 'ill': ill, 'w': wk}
+                cfgs.append(dict(base, kind='cgn'))
+                cfgs.append(dict(base, kind='landweber'))
+                if not thorough and ci > 0:
+                    cfgs.append(dict(base, kind='kaczmarz', blocks='rows', order='given'))
+                    continue
+                for order in ('given', 'reversed'):
+                    cfgs.append(dict(base, kind='kaczmarz', blocks='rows', order=order))
+                    if shape[0] == 3:
+                        cfgs.append(dict(base, kind='kaczmarz', blocks='pair', order=order))
+    # ---- (a) smooth solvers with backtracking line search
+    objs = [{'obj': 'rosenbrock', 'n': 2, 'scale': 1.0},
+            {'obj': 'rosenbrock', 'n': 2, 'scale': 100.0},
+            {'obj': 'quadform', 'n': 2, 'mat': [2, 1, 2], 'ill': 0, 'w': 'plain'},
+            {'obj': 'quadform', 'n': 2, 'mat': [2, 1, 2], 'ill': 1, 'w': 'wa'},
+            {'obj': 'lsq', 'shape': [3, 2], 'mat': [1, 0, 1, 1, 0, 2], 'ill': 0, 'w': 'plain'},
+            {'obj': 'lsq', 'shape': [3, 2], 'mat': [1, 0, 1, 1, 0, 2], 'ill': 0, 'w': 'w2'}]
+    if thorough:
+        objs += [{'obj': 'rosenbrock', 'n': 3, 'scale': 10.0},
+                 {'obj': 'quadform', 'n': 3, 'mat': [2, 1, 1, 2, 1, 2], 'ill': 0, 'w': 'w2'},
+                 {'obj': 'quadform', 'n': 3, 'mat': [2, -1, 0, 2, 1, 2], 'ill': 1, 'w': 'plain'},
+                 {'obj': 'lsq', 'shape': [3, 2], 'mat': [1, 0, 1, 1, 0, 2], 'ill': 1,
+                  'w': 'plain'},
+                 {'obj': 'lsq', 'shape': [2, 2], 'mat': [2, 1, -1, 1], 'ill': 0, 'w': 'plain'}]
+    for o in objs:
+        cfgs.append(dict(o, kind='linesearch'))
+        for sv in SMOOTH:
+            cfgs.append(dict(o, kind='smooth', solver=sv, horizon='short'))
+        cfgs.append(dict(o, kind='smooth', solver='steepest_descent', horizon='long'))
+    # ---- (c) power method
+    sym2 = [list(t) for t in itertools.product(MV, repeat=3) if any(t)]
+    for wk in ('plain', 'w2', 'wa'):
+        for n in (2, 3):
+            for i, t in enumerate(spd[n]):
+                if not thorough and n == 3 and i % 8:
+                    continue
+                for ill in (0, 1):
+                    for arm in ('selfadjoint', 'normal'):
+                        cfgs.append({'kind': 'power', 'pool': 'spd', 'shape': [n, n], 'mat': t,
+                                     'ill': ill, 'w': wk, 'arm': arm})
+        for t in sym2:                  # symmetric, possibly indefinite / singular
+            cfgs.append({'kind': 'power', 'pool': 'sym', 'shape': [2, 2], 'mat': t, 'ill': 0,
+                         'w': wk, 'arm': 'selfadjoint'})
+        for shape in ([2, 2], [3, 2], [2, 3]):
+            pool = _pool(shape, MV) if thorough else _pool(shape, small)
+            for t in pool:
+                for ill in (0, 1):
+                    cfgs.append({'kind': 'power', 'pool': 'rect', 'shape': shape, 'mat': t,
+                                 'ill': ill, 'w': wk, 'arm': 'normal'})
+    # ---- (b) non-smooth solvers
+    for fam, F in FAMS.items():
+        for xi, X in enumerate(F['X']):
+            if not thorough and xi > 0 and fam not in ('fused',):
+                continue
+            n = S.flat_size(_xspace(X))
+            pts = list(itertools.product(F['xv'], repeat=n))
+            if not thorough:
+                # quick: the 9 palindromic patterns (all 27 / 81 in the thorough tier)
+                pts = [t for t in pts if t == t[::-1]]
+            if F.get('zero_dual_only'):
+                pats = [('z', 0)]
+            elif thorough:
+                pats = [(0, 0), (1, 0), ('z', 0), (0, 1)]
+            else:
+                pats = [(0, 0), ('z', 0), (0, 1)]
+            for pat, deg in pats:
+                for xs in pts:
+                    for sv in F['solvers']:
+                        c = {'kind': 'ns', 'fam': fam, 'X': X, 'xs': list(xs), 'pat': pat,
+                             'solver': sv, 'tier': tier, 'K': K_LIVE}
+                        if deg:
+                            c['deg'] = 1
+                        cfgs.append(c)
+    return cfgs
+
+
+_RUN = {'cg': run_cg, 'cgn': run_cgn, 'landweber': run_landweber, 'kaczmarz': run_kaczmarz,
+        'smooth': run_smooth, 'linesearch': run_linesearch, 'power': run_power, 'ns': run_ns}
+
+
+def run(cfg):
+    return _RUN[cfg['kind']](cfg)
+
+
+def trace_functions():
+    from odl.solvers.iterative import iterative as IT
+    from odl.solvers.nonsmooth import (primal_dual_hybrid_gradient as PD, douglas_rachford as DRM,
+                                       forward_backward as FB, proximal_gradient_solvers as PGS,
+                                       admm as AD)
+    from odl.solvers.smooth import gradient as GR
+    from odl.solvers.util import steplen as SL
+    from odl.operator import oputils as OU
+    return [IT.landweber, IT.conjugate_gradient, IT.conjugate_gradient_normal, IT.kaczmarz,
+            PD.pdhg, PD.pdhg_stepsize, DRM.douglas_rachford_pd, DRM.douglas_rachford_pd_stepsize,
+            FB.forward_backward_pd, PGS.proximal_gradient, PGS.accelerated_proximal_gradient,
+            AD.admm_linearized, GR.steepest_descent, SL.BacktrackingLineSearch.__call__,
+            OU.power_method_opnorm]
+
+
+def summarize(results):
+    diag_runs = diag_non = 0
+    worst = {}
+    inadm = 0
+    for cfg, res in results:
+        if cfg.get('kind') != 'ns':
+            continue
+        d = res.get('diag') or [0, 0]
+        diag_runs += d[0]
+        diag_non += d[1]
+        for k in res.get('iters') or []:
+            key = '%s/%s' % (cfg['solver'], cfg['fam'])
+            worst[key] = max(worst.get(key, 0), k)
+        inadm += sum(1 for s in res['sig'] if 'default-inadmissible' in s)
+    return {'diagnostic_lyapunov_runs': diag_runs,
+            'diagnostic_nonmonotone': diag_non,
+            'default_step_rule_inadmissible_states': inadm,
+            'max_iterations_to_converge': dict(sorted(worst.items())),
+            'liveness_horizon': K_LIVE}
+
+
+def meta(tier):
+    return {
+        'rule': 'one state = (solver, problem recipe); inside a state every right-hand side of '
+                'V^m x start {0, pattern} x admissible step size of the grid is executed and '
+                'every callback iterate is compared with the invariant computed by the NumPy '
+                'reference (energy-norm error, residual, distance, objective, KKT residual of '
+                'mc/ref/optim_ref.py).  "For all problems" is discharged by small scope: ALL '
+                'symmetric positive definite matrices over {-1,0,1,2} (n=2,3), all full-rank '
+                'rectangular matrices over the alphabet modulo permutation of equations / sign of '
+                'unknowns, all x* in V^n x residual / sub-gradient patterns for the non-smooth '
+                'pool.  distinct = distinct (solver, outcome class, iteration-count class, '
+                'executed-line signature of the anchored solver functions).',
+        'bounds': {
+            'matrix_alphabet': MV, 'rhs_alphabet': RV, 'x_star_alphabets': [XV, XVP, XVN],
+            'spd': 'all 10 (n=2) + 96 (n=3), x {well, ill (D S D, D_00=2^-3)} x '
+                   '{unweighted, const 2, array weights}',
+            'rect': 'canonical full rank 2x2 3x2 2x3 over {-1,0,1,2} (thorough; quick {-1,0,1}), '
+                    '3x3 over {-1,0,1}; ill = first row * 2^-6',
+            'landweber_omega*|A|^2': LW_OMEGA + ['default'],
+            'kaczmarz_omega_i*|A_i|^2': KZ_OMEGA,
+            'nonsmooth_families': sorted(FAMS),
+            'liveness_horizon_K': K_LIVE,
+            'liveness_tolerances': '|x_K-x*| <= 1e-5 (1+|x*|), KKT residual <= 1e-6 (1+|x*|+|y*|)',
+            'fixed_point_tolerance': '1e-10 (1+|x*|) after 1 and 3 iterations',
+            'power_method_maxiter': [1, 2, 3, 4, 5, 6, 8, 10, 13, 14, 20],
+            'tier': tier},
+        'assumptions': [
+            'convergence is a limit statement: only the horizon K is decided (a correct solver '
+            'needs < K/3 iterations on every pool member on the pinned tree); early exit of a run '
+            'once the iterate is 1000x inside the tolerances',
+            'pool problems are built backwards from (x*, y*); the KKT inclusion of that pair is '
+            're-verified by the reference sub-differentials in every state (assert), so x* is a '
+            'certified solution, not a stored answer of the library',
+            'operators whose .adjoint is not the exact adjoint in the weighted inner products '
+            '(odl.MatrixOperator between differently weighted spaces: C05) are replaced by a '
+            'harness operator with the exact adjoint; states with an inexact adjoint are skipped',
+            'fixed point (i) for douglas_rachford_pd / forward_backward_pd / admm_linearized only '
+            'where the dual solution is 0 (and L x* = 0 for DR / ADMM): their dual start is '
+            'hard-wired to 0 and cannot be passed',
+            'default step rules use the power method from a random start; numpy.random is seeded '
+            'from the configuration; if the resulting steps violate the documented condition '
+            '(estimate below the true norm) the run is counted, not judged',
+            'pdhg acceleration (gamma_primal/gamma_dual), the l_i terms of DR / FBPD, callable '
+            'lam, projection= and random=True of kaczmarz/landweber are not explored '
+            '(unreached anchor lines)',
+            'Lyapunov / Fejer monotonicity (pdhg metric, proximal-gradient objective) is a '
+            'diagnostic: counted in coverage.diagnostic_nonmonotone, never a violation'],
+    }
